@@ -225,6 +225,7 @@ UNIT['obligations'].update({
 import re as _re, os as _os
 UNIT['canaries'] = sorted(set(_re.findall(r'XV_CANARY\("([^"]+)"\)', open(_os.path.join('/verif/units/hmm', 'harness.c')).read())))
 UNIT['replays'] = {
+  'hmm.order.total': dict(src='replay_order.cpp'),
   'hmm.find.iff_live': dict(src='replay_map.cpp', fixed={'op': 'find'}),
   'hmm.insert.iff_absent': dict(src='replay_map.cpp', fixed={'op': 'insert'}),
   'hmm.erase.iff_present': dict(src='replay_map.cpp', fixed={'op': 'erase_key'}),
